@@ -134,6 +134,16 @@ func usesMessageSet(fl *Flat) bool {
 	return false
 }
 
+// hasWKT: some reachable message is a google.protobuf.* type (special JSON mapping).
+func (fam *family) hasWKT() bool {
+	for _, md := range fam.flavors[0].flat.Descs {
+		if strings.HasPrefix(string(md.FullName()), "google.protobuf.") {
+			return true
+		}
+	}
+	return false
+}
+
 func (fam *family) voices() []*fvoice {
 	var vs []*fvoice
 	for _, fl := range fam.flavors {
@@ -569,6 +579,23 @@ func flavorCase(c *vh.Ctx, fam *family, vs []*fvoice, t *Tree, stream string) {
 		return
 	}
 	r0 := outs[0]
+	// JSON: what the reference output decodes to in dynamicpb of the open descriptor.  For schemas without
+	// well-known types that must be the content; well-known types have their own lossy JSON mapping (a
+	// NullValue number, a Value holding NaN, … : C20/C23), there every decoder must reach the same result.
+	jsonWant, jsonWantOK := lossy, true
+	if r0.jsOK {
+		m := open.dt.New().Interface()
+		err := protojson.UnmarshalOptions{AllowPartial: true}.Unmarshal(retargetFlavor(r0.js, r0.v.fl, open), m)
+		jsonWantOK = err == nil
+		if err == nil {
+			jsonWant = lossySnap(open, m)
+		}
+		if !fam.hasWKT() {
+			c.Check(err == nil && jsonWant == lossy, "JSON output of "+r0.v.name+" decoded by open/dynamicpb is not the content (modulo unknown fields, NaN payloads): "+fmt.Sprint(err), in, "")
+		} else {
+			c.Hist("json:well-known-types-compared-across-decoders-only")
+		}
+	}
 	for i, o := range outs {
 		in2 := map[string]any{"family": fam.name, "content": snap, "stream": stream, "voice": o.v.name, "reference": r0.v.name}
 		// pairwise (through the reference): bytes, JSON, oneof view
@@ -606,7 +633,11 @@ func flavorCase(c *vh.Ctx, fam *family, vs []*fvoice, t *Tree, stream string) {
 			if p.jsOK {
 				m3 := o.v.newEmpty()
 				err := protojson.UnmarshalOptions{AllowPartial: true}.Unmarshal(retargetFlavor(p.js, p.v.fl, o.v.fl), m3)
-				c.Check(err == nil && lossySnap(o.v.fl, m3) == lossy, "JSON output of "+p.v.name+" decoded by "+o.v.name+" is not the content (modulo unknown fields, NaN payloads): "+fmt.Sprint(err), in3, "")
+				if jsonWantOK {
+					c.Check(err == nil && lossySnap(o.v.fl, m3) == jsonWant, "JSON output of "+p.v.name+" decoded by "+o.v.name+" differs from what open/dynamicpb decodes from the reference JSON: "+fmt.Sprint(err), in3, "")
+				} else {
+					c.Check(err != nil, "JSON output of "+p.v.name+" is accepted by "+o.v.name+" but the reference JSON is rejected by open/dynamicpb", in3, "")
+				}
 			}
 			m4 := o.v.newEmpty()
 			err := prototext.UnmarshalOptions{AllowPartial: true}.Unmarshal(retargetFlavor(p.txt, p.v.fl, o.v.fl), m4)
